@@ -771,9 +771,7 @@ impl TcpSession {
         // A live backend handle implies the matching token is present: the
         // two are wired together in `connect_to_backend` and torn down
         // together in `remove_backend` (which clears the token) — they must
-        // never drift apart. (For the pure-TCP proxy `backend` is currently
-        // always `None`, so this is a guard against a future regression that
-        // starts populating it without the token.)
+        // never drift apart.
         if self.backend.is_some() {
             debug_assert!(
                 self.backend_token.is_some(),
@@ -1192,6 +1190,9 @@ impl TcpSession {
         self.metrics.backend_id = Some(backend.borrow().backend_id.clone());
         self.metrics.backend_start();
         self.set_backend_id(backend.borrow().backend_id.clone());
+        // keep the handle: `remove_backend` releases the connection counted by
+        // `try_connect`, `fail_backend_connection` feeds the retry policy
+        self.backend = Some(backend);
 
         // Postcondition of a successful New connect: the session is wired to
         // its freshly-registered backend token and the status reflects an
